@@ -579,6 +579,27 @@ def rule_p3(F):
                     mm = re.match(r"^lit:'(.*)'$", a)
                     if mm and isinstance(row["result"], str) and row["result"].startswith("Keyword::"):
                         lex[mm.group(1)] = row["result"].split("::")[1]
+        if not lex:
+            # the table written as an array of (spelling, Keyword) pairs searched with `find` - in the function or in a `const` item
+            # of the lexer that the function names; the search must compare the spelling with `==`
+            srcs = [kb.hir["value"]]
+            for n in hir.walk(kb.hir["value"]):
+                d_ = hir.res_def(n) if n.get("k") == "path" else None
+                cb_ = F.body(d_) if d_ and "parser::lexer" in d_ and F.has(d_) else None
+                if cb_ is not None and cb_.hir and cb_.def_kind.startswith("Const"):
+                    srcs.append(cb_.hir["value"])
+            eq_search = any(m_["m"] in ("find", "find_map", "position") and m_["args"] and hir.strip(m_["args"][0]).get("k") == "closure"
+                            and hir.strip(hir.strip(m_["args"][0]).get("body") or {}).get("k") == "bin" and hir.strip(hir.strip(m_["args"][0])["body"]).get("op") == "=="
+                            for m_ in hir.nodes(kb.hir["value"], "mcall"))
+            for src in srcs:
+                for arr in hir.nodes(src, "array"):
+                    for e in arr["elems"]:
+                        e = hir.strip(e)
+                        if e.get("k") == "tup" and len(e.get("elems") or []) == 2:
+                            a_, b_ = [hir.strip(x) for x in e["elems"]]
+                            kd = hir.result_desc(b_)
+                            if a_.get("k") == "lit" and isinstance(a_.get("v"), str) and isinstance(kd, str) and "Keyword::" in kd and eq_search:
+                                lex[a_["v"]] = kd.split("Keyword::")[1].split("(")[0]
         back = {}
         for m in hir.find_match_on(ab.hir["value"], "Keyword::", min_arms=5):
             for row in hir.table(m):
@@ -653,7 +674,8 @@ def rule_p3(F):
     # numeric suffixes in simple_literal
     sb = find_body(F, "::simple_literal", r, contains="parser::expr")
     if sb:
-        for m in hir.nodes(sb.hir["value"], "match"):
+        # the suffix table may live in private helpers of the parser that simple_literal calls (`int_type_of_suffix(..)`)
+        for m in [m_ for fb_ in hir.with_callees(F, sb, depth=2, same_file=True) for m_ in hir.nodes(fb_.hir["value"], "match")]:
             for row in hir.table(m):
                 for a in row["alts"]:
                     mm = re.match(r"^lit:'([iuf]\d+)'$", a)
